@@ -402,6 +402,7 @@ func (r *RowCache) IndexExists(row model.Model) error {
 		return nil
 	}
 	uuid := field.(string)
+	var indexExists *ErrIndexExists
 	for _, indexSpec := range r.indexSpecs {
 		if !indexSpec.isSchemaIndex() {
 			// Given the ordered indexSpecs, we can break here if we reach the
@@ -416,7 +417,13 @@ func (r *RowCache) IndexExists(row model.Model) error {
 		vals := r.indexes[index]
 		existing := vals[val]
 		if !existing.empty() && !existing.equals(newUUIDSet(uuid)) {
-			return NewIndexExistsError(
+			if indexExists != nil {
+				// report the rows conflicting on any other index as well,
+				// callers might be able to disregard some of them
+				indexExists.Existing = append(indexExists.Existing, existing.list()...)
+				continue
+			}
+			indexExists = NewIndexExistsError(
 				r.name,
 				val,
 				string(index),
@@ -424,6 +431,9 @@ func (r *RowCache) IndexExists(row model.Model) error {
 				existing.list(),
 			)
 		}
+	}
+	if indexExists != nil {
+		return indexExists
 	}
 	return nil
 }
